@@ -416,6 +416,7 @@ static Result check_grid(const J &c)
           if (match[i] < 0) return Result::fail("grid-node-not-on-lattice", type + ": node " + std::to_string(i) + " (" + fmt(n.x) + "," + fmt(n.y) + "," + fmt(n.z) + ") is not a node of the requested lattice");
         }
     }
+  std::vector<int> shell_of; // sphere grids: index of the radial shell of every node
   if (type == "sphere")
     {
       // The sphere grid is a closed shell mesh: 12 blocks of nx x nx quadrilaterals, extruded through nz layers. Without re-deriving
@@ -428,7 +429,7 @@ static Result check_grid(const J &c)
       if (np != want_nodes) return Result::fail("grid-node-count", "sphere: " + std::to_string(np) + " nodes written, a closed shell mesh of 12 nx^2 faces and nz layers has " + std::to_string(want_nodes));
       const double dr = (z_max - z_min) / static_cast<double>(nz);
       std::vector<size_t> per_shell(nz + 1, 0);
-      std::vector<int> shell_of(np, -1);
+      shell_of.assign(np, -1);
       for (size_t i = 0; i < np; ++i)
         {
           const Node n = file_node(i);
@@ -490,7 +491,15 @@ static Result check_grid(const J &c)
   for (size_t i = 0; i < np; ++i)
     {
       const Node fn = file_node(i);
-      const Node n = match[i] >= 0 ? ref[static_cast<size_t>(match[i])] : fn;
+      Node n = match[i] >= 0 ? ref[static_cast<size_t>(match[i])] : fn;
+      if (type == "sphere" && !shell_of.empty())
+        {
+          // the node's radius is one of the nz+1 exact shell radii (verified above): put the printed position (6 significant digits)
+          // back on its shell, which removes the printing error in the direction everything depends on most
+          const double rad_print = std::sqrt(fn.x * fn.x + fn.y * fn.y + fn.z * fn.z), rad_exact = z_min + (z_max - z_min) * static_cast<double>(shell_of[i]) / static_cast<double>(nz);
+          if (rad_print > 0) { n.x = fn.x * rad_exact / rad_print; n.y = fn.y * rad_exact / rad_print; n.z = fn.z * rad_exact / rad_print; }
+          n.depth = z_max - rad_exact;
+        }
       // depth = distance below the top of the grid
       const double rad = dim == 3 ? std::sqrt(fn.x * fn.x + fn.y * fn.y + fn.z * fn.z) : std::sqrt(fn.x * fn.x + fn.y * fn.y);
       const double want_depth = type == "cartesian" ? z_max - (dim == 3 ? fn.z : fn.y) : z_max - rad;
@@ -523,6 +532,16 @@ static Result check_grid(const J &c)
               const std::vector<double> l3 = eval(q);
               for (size_t k = 0; k < l3.size(); ++k) if (!close_rel(l3[k], lib[k], 1e-4, 1e-9)) ambiguous = true;
             }
+          // no reference lattice for the tangential position (sphere): the answer must not hinge on the last printed digit of it
+          if (match[i] < 0)
+            for (int ax = 0; ax < 3; ++ax)
+              for (double d : {-1.0, 1.0})
+                {
+                  Node q = n;
+                  (ax == 0 ? q.x : ax == 1 ? q.y : q.z) += d * 1e-5 * z_max;
+                  const std::vector<double> l4 = eval(q);
+                  for (size_t k = 0; k < l4.size(); ++k) if (!close_rel(l4[k], lib[k], 1e-5, 1e-9)) ambiguous = true;
+                }
         }
       catch (const std::exception &) { ambiguous = true; }
       if (ambiguous) { r.classes.push_back("boundary-ambiguous node(skipped)"); continue; }
